@@ -30,7 +30,9 @@ func observePair(u *url.Url) (o pairObs, pan string) {
 	return
 }
 
-func (a pairObs) equal(b pairObs) bool { return a.F == b.F && pairsEqual(a.List, b.List) && a.Errs == b.Errs }
+func (a pairObs) equal(b pairObs) bool {
+	return a.F == b.F && pairsEqual(a.List, b.List) && a.Errs == b.Errs
+}
 
 // c13Parse parses with the default parser, or with one that records validation errors when the pairing is
 // prefixed with "rep|" (the recorded errors are a public observable of both sides too).
